@@ -159,7 +159,7 @@ func (fr *Frame) sprintf(site ssa.Instruction, args []Value, st *State) *Term {
 				if t, ok := typeTagTypes[iv.Tag.Int]; ok && kindOf(t) == "opaque" {
 					// a boxed scalar value (uuid.UUID, time.Time ...): the text is a function of the value, not of the box
 					if val, ok := st.load(iv.Val, t).(*Term); ok {
-						piece = App("textOf_"+typeKey(t), SStr, val)
+						piece = App("textOf_"+strings.NewReplacer(".", "_", "/", "_", "*", "p").Replace(typeKey(t)), SStr, val)
 					}
 				}
 			}
